@@ -50,7 +50,7 @@ func RunChild(bin string, sc Script, env []string, timeout time.Duration) (*Chil
 	ctx, cancel := context.WithTimeout(context.Background(), timeout)
 	defer cancel()
 	cmd := exec.CommandContext(ctx, bin, "--child", "node", sp, tp)
-	cmd.Env = append(os.Environ(), env...)
+	cmd.Env = append(append(os.Environ(), "VERIF_DATADIR="+filepath.Join(dir, "data")), env...)
 	var stderr bytes.Buffer
 	cmd.Stderr = &stderr
 	cmd.Stdout = &stderr
